@@ -210,6 +210,55 @@ func ruleDelegate(c *Ctx) {
 		}
 		c.check(okc, R, s.fn+"→"+s.callee, p.pos(fn.Pos()), "operates on argument #1 through "+s.callee+" with the documented argument positions", s.fn+" does not reach the list through "+s.callee+" with its arguments in the documented positions")
 	}
+	// (*LTable).Remove: every arm that takes an element out shrinks the array by exactly one
+	if fn := c.need(R, "lua", "(*LTable).Remove"); fn != nil {
+		g := p.G(fn)
+		arrF := p.Field("lua", "LTable", "array")
+		isShrink := func(in ssa.Instruction) bool {
+			st, ok := isFieldStore(in, arrF)
+			if !ok {
+				return false
+			}
+			sl, ok := st.Val.(*ssa.Slice)
+			if !ok || sl.High == nil {
+				return false
+			}
+			b, ok := stripConv(sl.High).(*ssa.BinOp)
+			if !ok || b.Op != token.SUB {
+				return false
+			}
+			k, ok := constInt(b.Y)
+			return ok && k == 1 && strings.HasPrefix(vkey(b.X), "len(")
+		}
+		n, bad := 0, 0
+		var first ssa.Instruction
+		allInstrs(fn, func(in ssa.Instruction) {
+			u, ok := in.(*ssa.UnOp)
+			if !ok || u.Op != token.MUL || !g.Live(in) {
+				return
+			}
+			ia, ok := u.X.(*ssa.IndexAddr)
+			if !ok {
+				return
+			}
+			if _, ok := loadsField(ia.X, arrF); !ok {
+				return
+			}
+			n++
+			blk, i := after(in)
+			if okp, _ := g.MustPassBefore(blk, i, isShrink, isReturn); !okp {
+				bad++
+				if first == nil {
+					first = in
+				}
+			}
+		})
+		pos := p.pos(fn.Pos())
+		if first != nil {
+			pos = p.ipos(first)
+		}
+		c.check(n >= 2 && bad == 0, R, "Remove:shrinks-by-one", pos, fmt.Sprintf("all %d arms that take an element out re-slice the array to len-1", n), "an arm of (*LTable).Remove takes an element out without shrinking the array by one: a trailing nil slot stays behind, so a later table.remove(t) returns nil and table.sort compares nil")
+	}
 	// table.remove without position removes the last element: Remove(-1)
 	if fn := p.Fn("lua", "tableRemove"); fn != nil {
 		okc := false
@@ -338,6 +387,26 @@ func ruleSentinel(c *Ctx) {
 			pos = p.ipos(hit)
 		}
 		c.check(okStore, R, "result-cached-on-every-path", pos, "after the module function returns, every path caches a value (or the loader stored one itself)", "require can return without replacing the sentinel: the next require of the module reports a loop / runs the loader again")
+		// what require returns is what the cache holds
+		push := p.Fn("lua", "(*LState).Push")
+		np := 0
+		for _, pu := range callsTo(fn, push) {
+			if !g.Dominates(modCall, pu) {
+				continue
+			}
+			np++
+			v := stripMI(pu.Call.Args[1])
+			same := false
+			for _, st := range callsTo(fn, setField) {
+				if (stripMI(st.Call.Args[3]) == v || vkey(st.Call.Args[3]) == vkey(v)) && g.Dominates(st, pu) {
+					same = true
+				}
+			}
+			if call, ok := v.(*ssa.Call); ok && call.Call.StaticCallee() == getField && g.Dominates(modCall, call) {
+				same = true // re-read from package.loaded after the loader ran
+			}
+			c.check(same, R, fmt.Sprintf("returns-cached-value#%d", np), p.ipos(pu), "the value returned is the value just cached (or re-read from the cache)", "require returns a value that is not the one in package.loaded[name]: the first require and every later one return different values")
+		}
 		// nil result caches true
 		okTrue := false
 		for _, cl := range callsTo(fn, setField) {
